@@ -268,15 +268,21 @@ def rule_fields(chk, prog, tier):
     FIELD_EXCEPTIONS = {
         'attr.align': 'the aligned attribute is rejected at every use site (no caller allows ATTRALIGNED), so the parsed value has no consumer yet',
     }
-    n = 0
+    import json, os
+    try: known = set(json.load(open(os.path.join(os.path.dirname(os.path.dirname(os.path.abspath(__file__))), 'baseline', 'fields.json')))['members'])
+    except (OSError, ValueError, KeyError): raise AnalysisBroken('baseline/fields.json (member inventory of the reviewed tree) is missing')
+    n = 0; newer = []
     for fid, ws in writes.items():
         nm = fid
         if nm in FIELD_EXCEPTIONS:
             continue
+        if isinstance(nm, str) and not nm.startswith('anon@') and nm not in known:
+            newer.append(nm); continue            # a member that did not exist on the reviewed tree: nothing relied on it being read
         n += 1
         rd = reads.get(fid)
         fn, node = ws[0]
         r.instance(bool(rd), 'field:%s' % nm, '%s:%s' % (fn['_file'], node.get('line')), 'field %s is assigned in %s but never read anywhere in the program' % (nm, sorted({w[0]['name'] for w in ws})))
+    if newer: r.samples.append('members added since the reviewed tree (not judged): %s' % ', '.join(sorted(newer)))
     r.exhaustive = True
 
 
